@@ -994,7 +994,8 @@ namespace BitSerializer::Convert::Utf
 			const auto result = TUtf::Decode(reinterpret_cast<typename TUtf::char_type*>(mStartDataPtr), GetAlignedEndDataPtr<typename TUtf::char_type>(), outStr, mEncodingErrorPolicy, mErrorMark);
 			mStartDataPtr = reinterpret_cast<char*>(result.Iterator);
 			assert(mStartDataPtr <= mEndDataPtr);
-			if (mInputStream.eof())
+			// No more data can be received from a failed stream as well
+			if (mInputStream.eof() || mInputStream.fail())
 			{
 				// Handle uncompleted sequence at the end of file (including the case when left only part of code unit)
 				const bool hasIncompleteCodeUnit = result.ErrorCode == UtfEncodingErrorCode::Success
